@@ -166,6 +166,20 @@ fn slot_leave() {
 
 pub const WATCHDOG_SECS: u64 = 60;
 
+/// resident set size of a process in MiB (Linux /proc), 0 if unknown
+fn rss_mb(pid: Option<u32>) -> u64 {
+    let path = match pid {
+        Some(p) => format!("/proc/{}/statm", p),
+        None => "/proc/self/statm".to_string(),
+    };
+    std::fs::read_to_string(path).ok().and_then(|s| s.split_whitespace().nth(1).and_then(|x| x.parse::<u64>().ok())).map(|pages| pages * 4096 / (1 << 20)).unwrap_or(0)
+}
+
+/// memory budget of one check process (MiB); normal use stays below 2 GiB
+pub fn rss_limit_mb() -> u64 {
+    std::env::var("VERIF_RSS_LIMIT_MB").ok().and_then(|s| s.parse().ok()).unwrap_or(10_000)
+}
+
 /// Starts the monitor thread: a single case running longer than WATCHDOG_SECS stops the run as
 /// INCONCLUSIVE (exit 2).  For properties that state termination (C05, C11) the saved case is
 /// re-executed once in a fresh child process; only if that isolated run exceeds the limit again
@@ -173,10 +187,22 @@ pub const WATCHDOG_SECS: u64 = 60;
 pub fn start_watchdog(ctx: Arc<Ctx>) {
     std::thread::spawn(move || loop {
         std::thread::sleep(Duration::from_millis(500));
-        let hit = {
+        let mut hit = {
             let s = slots().lock().unwrap();
             s.iter().flatten().find(|sl| sl.started.elapsed() > Duration::from_secs(WATCHDOG_SECS)).map(|sl| (sl.stage.to_string(), sl.kind.to_string(), (sl.case)()))
         };
+        // memory: a crate call that allocates without bound is treated like one that does not return
+        // (the case that has been running longest is the suspect)
+        let mut memory = false;
+        if hit.is_none() && rss_mb(None) > rss_limit_mb() {
+            let s = slots().lock().unwrap();
+            hit = s.iter().flatten().max_by_key(|sl| sl.started.elapsed()).map(|sl| (sl.stage.to_string(), sl.kind.to_string(), (sl.case)()));
+            memory = true;
+            if hit.is_none() {
+                println!("INCONCLUSIVE property={} the checker exceeded its memory budget of {} MiB outside any case", ctx.property, rss_limit_mb());
+                std::process::exit(2);
+            }
+        }
         if let Some((stage, kind, case)) = hit {
             if !ctx.violations.lock().unwrap().is_empty() {
                 // a violation has already been established by a case that did finish; the case that is
@@ -186,7 +212,7 @@ pub fn start_watchdog(ctx: Arc<Ctx>) {
                 let code = ctx.finish(rule, assumptions, Map::new());
                 std::process::exit(code);
             }
-            let path = ctx.write_replay(&stage, &kind, &case, "single case exceeded the watchdog limit (suspected hang)", "watchdog");
+            let path = ctx.write_replay(&stage, &kind, &case, if memory { "the checker exceeded its memory budget while this case was running (suspected unbounded allocation)" } else { "single case exceeded the watchdog limit (suspected hang)" }, "watchdog");
             if ctx.termination_is_property {
                 // isolated re-execution
                 let exe = std::env::current_exe().unwrap();
@@ -206,6 +232,12 @@ pub fn start_watchdog(ctx: Arc<Ctx>) {
                             std::process::exit(2);
                         }
                         Ok(None) => {
+                            if rss_mb(Some(child.id())) > rss_limit_mb() {
+                                let _ = child.kill();
+                                println!("the isolated re-run of the saved case allocated more than {} MiB (the input is a few kilobytes at most)", rss_limit_mb());
+                                println!("VIOLATION property={} replay={}", ctx.property, path.display());
+                                std::process::exit(1);
+                            }
                             if t0.elapsed() > Duration::from_secs(WATCHDOG_SECS) {
                                 let _ = child.kill();
                                 println!("the isolated re-run of the saved case did not terminate within {}s", WATCHDOG_SECS);
@@ -218,7 +250,7 @@ pub fn start_watchdog(ctx: Arc<Ctx>) {
                     }
                 }
             } else {
-                println!("INCONCLUSIVE property={} suspected-hang replay={}", ctx.property, path.display());
+                println!("INCONCLUSIVE property={} {} replay={}", ctx.property, if memory { "suspected-unbounded-allocation" } else { "suspected-hang" }, path.display());
                 std::process::exit(2);
             }
         }
